@@ -136,4 +136,19 @@ theorem source_has_more_is_the_trait_default :
 
 end Surface
 
+section SurfaceConv
+open Orx.GenThms.Surface Orx.Gen
+
+/-- the `From` conversion of the wrapper is `new`: the size hint is classified once, there -/
+theorem source_conversions_are_the_constructors :
+    fnsOf "frombody" "ConIterOfSlice" = [["Self::new(slice)"]] ∧ fnsOf "frombody" "ConIterOfVec" = [["Self::new(vec)"]] ∧
+    fnsOf "frombody" "ConIterOfArray" = [["Self::new(array)"]] ∧ fnsOf "frombody" "ConIterOfRange" = [["Self::new(range)"]] ∧
+    fnsOf "frombody" "ConIterOfIter" = [["Self::new(iter)"]] ∧
+    fnsOf "frombody" "ConIterValues" = [["Self{con_iter}"]] ∧ fnsOf "frombody" "ConIterIdsAndValues" = [["Self{con_iter}"]] ∧
+    sameSet (implsOf "From") ["ConIterOfSlice", "ConIterOfVec", "ConIterOfArray", "ConIterOfRange", "ConIterOfIter", "ConIterValues",
+      "ConIterIdsAndValues"] = true :=
+  Orx.GenThms.Surface.the_conversions
+
+end SurfaceConv
+
 end Orx.Props.C11
